@@ -56,6 +56,7 @@ def qualifiers(case, o):
     if o.II == 0: q.append('II0=1')
     if o.tau == 0: q.append('tau0=1')
     if o.gamma == 0: q.append('gamma0=1')
+    if o.p == 1 and OC.ENTRIES[case['entry']].discrete: q.append('p1=1')
     return q
 
 
@@ -117,6 +118,19 @@ def short(x):
     return a.round(9).tolist()
 
 
+def curve_domain(e, o):
+    """requests for which the clauses about the whole curve are meaningful for this model"""
+    if 'homogeneous_pairwise' in e.name and o.mode == 'sets' and len(set(o.deg)) > 1:
+        # the homogeneous closure assumes every node has n partners; explicit sets on a non-regular graph give it
+        # more S-edges than n*S and its exact solution is singular (S -> 0 in finite time): outside the model's domain
+        return False
+    if ('pairwise' in e.name or 'effective_degree' in e.name or 'pair_based' in e.name) and o.gamma == 0 and o.tau > 0:
+        # without recovery the susceptible pool is exhausted and the closures (.. * SI / S, ISS / SS) are 0/0 up to
+        # rounding: "to solver tolerance" is not meaningful there.  Row 0, times and acceptance are still checked.
+        return False
+    return True
+
+
 def judge(case, e, o, res, curve=True):
     """-> (violations [(clause, what)], observed row-0 dict or None); curve=False: skip the checks along the curve"""
     full = case['full']
@@ -170,7 +184,7 @@ def judge(case, e, o, res, curve=True):
         if not near(got, want):
             bad0 = True
             vio.append(('row0:%s' % nm, '%s: %s at tmin is %s, requested state gives %s' % (e.name, nm, short(got), short(want))))
-    if bad0 or vio or not curve:
+    if bad0 or vio or not curve or not curve_domain(e, o):
         return vio, obs
     # along the curve
     N = float(o.N); tol = 1e-6 * N
@@ -184,10 +198,6 @@ def judge(case, e, o, res, curve=True):
             i = int(np.argmax(np.abs(tot - N)))
             vio.append(('conserve', '%s: S+I%s = %.9g at t=%.4g, N = %g' % (e.name, '+R' if e.sir else '', tot[i], t[i], N)))
         btol = 1e-5 * N
-        if 'homogeneous_pairwise' in e.name and o.mode == 'sets' and len(set(o.deg)) > 1:
-            # the homogeneous closure assumes every node has n partners; explicit sets on a non-regular graph
-            # give it more S-edges than n*S, its solution is singular (S -> 0 in finite time): outside the model's domain
-            return vio, obs
         for nm, x in zip('SIR', comp):
             if np.min(x) < -btol or np.max(x) > N + btol:
                 vio.append(('bounds:%s' % nm, '%s: %s ranges over [%.6g, %.6g], outside [0,%g]' % (e.name, nm, np.min(x), np.max(x), N)))
